@@ -35,7 +35,7 @@ ASSUMPTIONS = [
 REQUIRED = {"calls_with_non_bool_results": 100, "nodes_checked": 1000, "calls_checked": 50, "bad_multipliers_refused": 10, "op_nodes_checked": 200}
 SHARD_TIMEOUT = {"quick": 600, "thorough": 1800}
 
-KINDS = ["D1", "D2", "E1", "E2", "C", "H", "G"]
+KINDS = ["D1", "D2", "E1", "E2", "C", "H", "G", "Ds", "Es"]
 
 
 def plan(tier, seed):
@@ -109,7 +109,15 @@ def make_leaves():
         def __call__(self, context):
             return True
 
+    class MyDisplacement(DisplacementMove):  # a user's own flavour of a displacement move: still of the displacement kind
+        pass
+
+    class MyExchange(ExchangeMove):
+        pass
+
     return {
+        "Ds": MyDisplacement([0, 1]),
+        "Es": MyExchange([0, 1]),
         "D1": DisplacementMove([0, 1]),
         "D2": DisplacementMove([0, 1]),
         "E1": ExchangeMove([0, 1]),
@@ -125,10 +133,12 @@ def expected_type(elems):
     from quansino.moves.displacement import CompositeDisplacementMove, DisplacementMove
     from quansino.moves.exchange import CompositeExchangeMove, ExchangeMove
 
-    if all(type(m) is DisplacementMove for m in elems):
-        return CompositeDisplacementMove
-    if all(type(m) is ExchangeMove for m in elems):
+    # "of one displacement kind" / "of one exchange kind": the shipped classes and the user's subclasses of them
+    # (an exchange move is-a displacement move in the class tree, but is of the exchange kind)
+    if all(isinstance(m, ExchangeMove) for m in elems):
         return CompositeExchangeMove
+    if all(isinstance(m, DisplacementMove) and not isinstance(m, ExchangeMove) for m in elems):
+        return CompositeDisplacementMove
     return CompositeMove
 
 
